@@ -10,6 +10,7 @@ use vkit::ledger::Ledger;
 static GLOBAL: Ledger = Ledger;
 
 mod arcad;
+mod boxad;
 mod cviewad;
 mod cstrad;
 mod feedad;
@@ -30,6 +31,7 @@ fn main() {
     match args[1].as_str() {
         "vec" => vecad::main(&args[2..]),
         "arc" => arcad::main(&args[2..]),
+        "boxes" => boxad::main(&args[2..]),
         "xmod" => xmodad::main(&args[2..]),
         "cview" => cviewad::main(&args[2..]),
         "obj" => objad::main(&args[2..]),
